@@ -70,6 +70,13 @@ func (ex *Exec) newCtx(fr *Frame, st, old *State, results []Val) *evalCtx {
 				pt := fv.Type().Underlying().(*types.Pointer)
 				addr := rootAddr(ref.T, fv.Type())
 				c.env[fv.Name()] = TVal{V: ex.load(st, addr), T: pt.Elem(), A: addr}
+			} else if p, isCell := r.(*PtrI); isCell {
+				// a captured local kept as a cell of the enclosing function
+				if pt, ok := fv.Type().Underlying().(*types.Pointer); ok {
+					if p.A.Kind != ACell || st.cells[p.A.Cell] != nil {
+						c.env[fv.Name()] = TVal{V: ex.load(st, p.A), T: pt.Elem(), A: p.A}
+					}
+				}
 			}
 		}
 	}
